@@ -13,7 +13,7 @@ from worlds import batch
 
 PROPERTY = 'C12'
 LEVEL = 'exploration'
-RUNS = {'quick': 360, 'thorough': 8000}
+RUNS = {'quick': 2500, 'thorough': 60000}
 RULE = ('scenario = converter (RP66V1 / LIS / BIT), directory tree of 2..10 generated files (healthy native, damaged native with explicit '
         'stored-byte faults, other formats, LAS/DAT/foreign), conversion configuration (slice/sample, channel subset, reduction, width, '
         'format), and a list of runs: sequential, 1..3 SimPool runs (jobs 1..16, explicit schedule choice list or policy, clock skews), '
@@ -46,7 +46,7 @@ CHANNEL_POOL = {
     'rp66v1': ['DEPT', 'TIME', 'GR', 'CAL', 'TENS', 'RHOB', 'NPHI', 'TDEP', 'INDEX'],
     'lis': ['DEPT', 'TIME', 'GR  ', 'CALI', 'TENS', 'RHOB', 'NPHI', 'SP  ', 'ILD '],
 }
-CONVERTERS_ENABLED = ['bit', 'rp66v1']
+CONVERTERS_ENABLED = ['bit', 'rp66v1', 'lis']
 
 
 def setup():
